@@ -45,6 +45,8 @@ func init() {
 			{ID: "C01-R18", Title: "computed messages are not used as format strings", Floor: 1, Run: messagesAreNotFormats},
 			{ID: "C01-R19", Title: "break leaves the loop and continue stays in it (patch targets)", Floor: 2, Run: loopExitTargets},
 			{ID: "C01-R20", Title: "operands are compiled in source order", Floor: 10, Run: operandsCompiledInSourceOrder},
+			{ID: "C01-R21", Title: "derived constructors copy every field (shared with C02-R11)", Floor: 1, Run: derivedConstructorsCopyEveryField},
+			{ID: "C01-R22", Title: "equality is decided by Equals", Floor: 1, Run: equalityIsDecidedByEquals},
 		},
 	})
 }
